@@ -228,6 +228,10 @@ func (propC20) Check(k *Kernel, cov *Coverage) *Violation {
 			return &Violation{Class: "mock-response-mismatch", Signature: sig("mock-response-mismatch", fieldShape(k.W, nil, rpc.Out, f)),
 				Detail: fmt.Sprintf("op %d %s: mock returned %s, client decoded %s", c.Op.ID, c.Op.RPC, jsonOf(c.HandlerResp), jsonOf(c.Resp))}
 		}
+		if v := undefinedEnum(c.HandlerResp.ProtoReflect(), 0); v != "" {
+			return &Violation{Class: "mock-undefined-enum", Signature: sig("mock-undefined-enum", ""),
+				Detail: fmt.Sprintf("op %d %s: %s in the mock's answer %s", c.Op.ID, c.Op.RPC, v, jsonOf(c.HandlerResp))}
+		}
 		if v := exampleViolation(k.W, c.HandlerResp.ProtoReflect(), 0); v != "" {
 			return &Violation{Class: "example-not-used", Signature: sig("example-not-used", ""),
 				Detail: fmt.Sprintf("op %d %s: %s (mock ints %v)", c.Op.ID, c.Op.RPC, v, k.Plan.MockInts)}
@@ -239,4 +243,52 @@ func (propC20) Check(k *Kernel, cov *Coverage) *Violation {
 		cov.Tuple(k.W.Name, c.Op.RPC, "ct="+ct, ex, fmt.Sprintf("cryptoFail=%v", k.Plan.MockCryptoFail), "served")
 	}
 	return nil
+}
+
+// undefinedEnum: every enum value in the mock's answer must be a declared value of its
+// enum (the published schema of an enum field is the list of its value names).
+func undefinedEnum(m protoreflect.Message, depth int) string {
+	if depth > 8 {
+		return ""
+	}
+	bad := ""
+	check := func(fd protoreflect.FieldDescriptor, v protoreflect.Value) {
+		if fd.Kind() == protoreflect.EnumKind && fd.Enum().Values().ByNumber(v.Enum()) == nil && bad == "" {
+			bad = fmt.Sprintf("field %s holds enum number %d, which %s does not declare", fd.FullName(), v.Enum(), fd.Enum().FullName())
+		}
+	}
+	m.Range(func(fd protoreflect.FieldDescriptor, v protoreflect.Value) bool {
+		switch {
+		case fd.IsMap():
+			v.Map().Range(func(_ protoreflect.MapKey, mv protoreflect.Value) bool {
+				if fd.MapValue().Kind() == protoreflect.MessageKind {
+					if b := undefinedEnum(mv.Message(), depth+1); b != "" && bad == "" {
+						bad = b
+					}
+				} else {
+					check(fd.MapValue(), mv)
+				}
+				return true
+			})
+		case fd.IsList():
+			l := v.List()
+			for i := 0; i < l.Len(); i++ {
+				if fd.Kind() == protoreflect.MessageKind {
+					if b := undefinedEnum(l.Get(i).Message(), depth+1); b != "" && bad == "" {
+						bad = b
+					}
+				} else {
+					check(fd, l.Get(i))
+				}
+			}
+		case fd.Kind() == protoreflect.MessageKind:
+			if b := undefinedEnum(v.Message(), depth+1); b != "" && bad == "" {
+				bad = b
+			}
+		default:
+			check(fd, v)
+		}
+		return true
+	})
+	return bad
 }
